@@ -54,11 +54,11 @@ Definition serve_one : list pinput :=
   [IData [cap_req; RH HEndOfMessage; RH HPaused];
    IApp (Some (MStart (Some 200%Z) [(HB (B "content-length"), HB (B "0"))] false)) [];
    IApp (Some (MBody (HB []) false)) []].
-(* the ghost is live: with a maximum of 1, an oracle that hands over a second Request after the first response
-   (h11 cannot: the response carried Connection: close) trips both notes; with a maximum of 2 the same second request
-   is legitimate and trips neither *)
+(* the ghost is live: with a maximum of 1, an oracle that hands over a second Request while the first is being
+   answered (h11 cannot) trips both notes; with a maximum of 2 a second request after the first response is legitimate
+   and trips neither.  (Once the connection has been closed the protocol no longer asks the parser for anything.) *)
 Example C18_cap_nonvacuous :
-  let over := cap_outs 1 (serve_one ++ [IData [cap_req]]) in
+  let over := cap_outs 1 [IData [cap_req; RH HEndOfMessage]; IData [cap_req]] in
   cap_note "h11-contract-violated" over = true /\ cap_note "request-over-limit" over = true /\
   let fine := cap_outs 2 [IData [cap_req; RH HEndOfMessage; RH HPaused];
                           IApp (Some (MStart (Some 200%Z) [(HB (B "content-length"), HB (B "0"))] false)) [];
